@@ -63,6 +63,9 @@ def toOPM : Render.Expr → OPM.Expr
   | .cast _ => .atom 998
   | .tnil => .atom 998
   | .tcons _ _ => .atom 998
+  | .inq _ x _ => .bin (binId "in") (toOPM x) (.atom 997)
+  | .exists_ _ => .atom 998
+  | .scalar _ => .atom 998
 
 def itemsOf : Render.Expr → List Render.Expr
   | .tcons e rest => e :: itemsOf rest
@@ -99,8 +102,8 @@ partial def pr : Render.Expr → OPM.Expr → String
 def modelledE : Render.Expr → Bool
   | .cmp _ l r => modelledE l && modelledE r
   | .ar _ l r => modelledE l && modelledE r
-  | .and l r => modelledE l && modelledE r && !isIte l && !isIte r
-  | .or l r => modelledE l && modelledE r && !isIte l && !isIte r
+  | .and l r => modelledE l && modelledE r
+  | .or l r => modelledE l && modelledE r
   | .not e => modelledE e && !typedArith (saNormE e)
   | .neg e => modelledE e
   | .btw _ x lo hi => modelledE x && modelledE lo && modelledE hi
@@ -108,6 +111,7 @@ def modelledE : Render.Expr → Bool
   | .cast e => modelledE e
   | .inl _ x items => modelledE x && modelledE items
   | .tcons e rest => modelledE e && modelledE rest
+  | .inq _ x _ => modelledE x
   | _ => true
 
 /-- the sub-expressions that are printed as operator trees of their own (inside CASE, CAST, IN lists) -/
